@@ -151,18 +151,14 @@ def d11_4(ctx):
                 ctx.violation(key, c.node, f"request class {c.name} belongs to no known command family")
                 continue
             ctx.check(cmd == bytes.fromhex(sp["commands"][want]), key, c.node, f"{want}: command {sp['commands'][want]}", f"{c.name}: command {cmd!r}, {want} is {sp['commands'][want]}", command=cmd)
-    # bodies
-    reg = ctx.model.cls(f"{PE}:RegisterSessionRequestPacket")
-    sm = reg.methods.get("_setup_message")
-    lay = []
-    if sm is not None:
-        L = Layouter(ctx, reg.module, reg, sm)
-        env = {}
-        L.block(list(sm.body), env)
-        v = env.get("self._msg")
-        lay = [f for f in (v.flat() if hasattr(v, "flat") else (v or [])) if f != ("ref", "self._msg")]
-    cpf = reg.methods.get("_build_common_packet_format")
-    passthrough = cpf is not None and any(isinstance(r, ast.Return) and atom_name(r.value) == cpf.args.args[1].arg for r in walk(cpf))
+    # bodies: Register Session = protocol version 0100 + options 0000 after the header, UnRegister Session and List Identity are
+    # header-only - decided on the witness frames of the three classes (D10.10) and on the driver's Register Session call folded
+    # with the configured version (D10.13); an earlier form required `return b""` and a `+=` of a list display
+    from .driver import _session_rule
+    from .packets import _emit
+
+    _emit(ctx, {"session-request"})
+    _session_rule(ctx)
     drv = ctx.model.cls(f"{CD}:CIPDriver")
     pv = None
     for n in walk(drv.methods["__init__"]):
@@ -170,21 +166,13 @@ def d11_4(ctx):
             for k, v in zip(n.keys, n.values):
                 if k is not None and ctx.folder.eval(k, drv.module) == "protocol version":
                     pv = ctx.folder.eval(v, drv.module)
-    init = reg.methods.get("__init__")
-    opt_default = ctx.folder.eval(init.args.defaults[-1], reg.module) if init is not None and init.args.defaults else None
-    site_ok = any(isinstance(c, ast.Call) and call_name(c) == "RegisterSessionRequestPacket" and len(c.args) == 1 and src(c.args[0]).replace('"', "'") == "self._cfg['protocol version']" for c in walk(drv.methods["_register_session"]))
     body = sp["register_session_body"]["fields"]
-    good = lay == [("ref", "self.protocol_version"), ("ref", "self.option_flags")] and passthrough and pv == bytes.fromhex(body[0]["value"]) and opt_default == bytes.fromhex(body[1]["value"]) and site_ok
-    ctx.check(good, ckey(reg.key, "body"), sm or reg.node, "RegisterSession body = protocol version 0100 + options 0000, sent without a CPF wrapper",
-              f"RegisterSession body is {show(lay)} (version {pv!r}, options {opt_default!r}, raw body: {passthrough})", layout=show(lay))
+    reg = ctx.model.cls(f"{PE}:RegisterSessionRequestPacket")
+    ctx.check(pv == bytes.fromhex(body[0]["value"]), ckey(reg.key, "body"), drv.methods["__init__"], "the driver registers with protocol version 1", f"the configured protocol version is {pv!r}; Register Session carries version {body[0]['value']}")
     for cname, extra in (("UnRegisterSessionRequestPacket", True), ("ListIdentityRequestPacket", False)):
         c = ctx.model.cls(f"{PE}:{cname}")
-        f = c.methods.get("_build_common_packet_format")
-        empty = f is not None and all(isinstance(r.value, ast.Constant) and r.value.value == b"" for r in walk(f) if isinstance(r, ast.Return)) and any(isinstance(r, ast.Return) for r in walk(f))
         nr = ctx.folder.class_attr(c, "no_response")
-        good = empty and (nr is True if extra else nr is False)
-        ctx.check(good, ckey(c.key, "body"), f or c.node, f"{cname}: empty body" + (", no reply expected" if extra else ", reply expected"), f"{cname}: body empty={empty}, no_response={nr!r}")
-
+        ctx.check(nr is True if extra else nr is False, ckey(c.key, "body"), c.node, f"{cname}: " + ("no reply expected" if extra else "reply expected"), f"{cname}: no_response={nr!r}")
 
 @rule(P, "D11.5", "T-DOM", floor=6)
 def d11_5(ctx):
